@@ -153,6 +153,7 @@ def main(tier, replay=None):
         run.add(r)
     run.require("compared_ok_nontrivial", 30 if not replay else 1)
     run.require("table_contract_values_ok", 30 if not replay else 1)
+    run.require("factorization_contract_evals", 30 if not replay else 1)
     return run.finish()
 
 
